@@ -197,7 +197,7 @@ def gen_shared_upload(rng: random.Random) -> Dict[str, Any]:
         req.insert(i, f"b{i}")
     # request order [b.., j]: with j first the transform steps are planned behind the join and read the object the join
     # redirected them to (SYNC raises on the unchanged tree - C01's round-trip / wrong-object domain)
-    return {"groups": groups, "request": req, "links": [{"jt": "INNER", "l": "RL", "r": "RA", "li": ["k"], "ri": ["k"]}]}
+    return {"groups": groups, "request": req, "links": [{"jt": "INNER", "l": "RL", "r": "RA", "li": ["k"], "ri": ["k"]}], "family": "shared_upload"}
 
 
 def gen_option_groups(rng: random.Random) -> Dict[str, Any]:
